@@ -9,6 +9,8 @@
 From Coq Require Import List NArith Bool Arith.
 From Coq Require Import String.
 From Wesh Require Import Model.C08_Pipeline Proofs.C08_Pipeline Proofs.C08_Termination Gen.Pipeline GenFacts.PipelineFacts.
+From Wesh Require Model.Store Model.C02_Ratchet Model.C08_Window Proofs.C08_Window Gen.Consts GenFacts.ConstsFacts.
+From Coq Require Permutation.
 Import ListNotations.
 Open Scope N_scope.
 
@@ -97,6 +99,109 @@ Theorem C08_eventually_delivered :
                   forall m, In m arr -> decryptable (keys s') m = true -> In m (delivered s').
 Proof. exact eventually_delivered. Qed.
 
+(* ---------------------------------------------------------------------------------------------
+   The key window.  Model.C08_Window: the consumer loop run sequentially over C02's abstract ratchet
+   (which the datastore-level store model refines, C02_store_refines_ratchet), for ANY window W, any
+   number of sender devices and any history of arrivals (any order, any repetition), registrations
+   (RegisterChainKey + ProcessMessageQueueForDevicePK) and rests of the loop.  A decryptable message
+   that lies beyond the precomputed keys does not open yet and is parked with the key known; the
+   theorems say that the retry discipline (every success of a device re-injects its whole parked
+   queue) never leaves one parked that opens. *)
+Module Win.
+Import Model.C02_Ratchet Model.C08_Window Proofs.C08_Window Permutation.
+
+(* the loop always comes to rest (the fuel the model runs with is enough, for every state) *)
+Theorem C08_window_loop_terminates :
+  forall W s, exists s', drain W (fuel_for s) s = Some s' /\ w_fifo s' = [].
+Proof. exact drain_total. Qed.
+
+Theorem C08_window_history_total : forall W ops, exists s, wfinal W ops = Some s.
+Proof. exact wfinal_total. Qed.
+
+(* at rest after ANY history: nothing is queued, no parked message opens in the ratchet state reached,
+   and every entry that opens has been delivered exactly once per arrival *)
+Theorem C08_window_none_stranded :
+  forall W ops s, wfinal W ops = Some s ->
+    w_fifo s = [] /\
+    (forall m, In m (w_parked s) -> opens W (w_rat s) m = false) /\
+    (forall m, opens W (w_rat s) m = true -> wcnt m (w_delivered s) = wcnt m (arrivals_of ops)).
+Proof. exact window_none_stranded. Qed.
+
+(* never more often than it arrived, and only what the ratchet opens *)
+Theorem C08_window_sound :
+  forall W ops s, wfinal W ops = Some s ->
+    forall m, (wcnt m (w_delivered s) <= wcnt m (arrivals_of ops))%nat /\
+    (In m (w_delivered s) -> opens W (w_rat s) m = true).
+Proof. exact window_sound. Qed.
+
+(* a backlog of ANY length: if the messages c+1 .. c+j of a device registered at c have all arrived -
+   in any order, mixed with anything else, before or after the registration, j far beyond the window
+   or not - every one of them is delivered, once per arrival.  W >= 1 is all that is needed. *)
+Theorem C08_window_prefix_complete :
+  forall W, (1 <= W)%nat ->
+  forall ops s d c, wfinal W ops = Some s -> first_reg d (regs_of ops) = Some c ->
+  forall j, (forall i, (1 <= i <= j)%nat -> In (mkW d (c + N.of_nat i)) (arrivals_of ops)) ->
+  forall i, (1 <= i <= j)%nat ->
+    In (mkW d (c + N.of_nat i)) (w_delivered s) /\
+    wcnt (mkW d (c + N.of_nat i)) (w_delivered s) = wcnt (mkW d (c + N.of_nat i)) (arrivals_of ops).
+Proof. exact window_prefix_complete. Qed.
+
+(* ... in particular with the window of the CURRENT source (generated constant) *)
+Theorem C08_window_prefix_complete_current :
+  forall ops s d c,
+  wfinal (N.to_nat Gen.Consts.precompute_message_key_count) ops = Some s -> first_reg d (regs_of ops) = Some c ->
+  forall j, (forall i, (1 <= i <= j)%nat -> In (mkW d (c + N.of_nat i)) (arrivals_of ops)) ->
+  forall i, (1 <= i <= j)%nat -> In (mkW d (c + N.of_nat i)) (w_delivered s).
+Proof.
+  intros ops s d c H Hr j Ha i Hi.
+  refine (proj1 (window_prefix_complete _ _ ops s d c H Hr j Ha i Hi)).
+  pose proof GenFacts.ConstsFacts.precompute_message_key_count_pos. Lia.lia.
+Qed.
+
+(* what is delivered depends on WHICH entries arrived and on the announcements registered first, not
+   on the order of arrival, the batches, the moments the loop rests or the position of the
+   registrations among the arrivals *)
+Theorem C08_window_order_independent :
+  forall W ops1 ops2 s1 s2,
+    wfinal W ops1 = Some s1 -> wfinal W ops2 = Some s2 ->
+    Permutation (arrivals_of ops1) (arrivals_of ops2) ->
+    (forall d, first_reg d (regs_of ops1) = first_reg d (regs_of ops2)) ->
+    forall m, wcnt m (w_delivered s1) = wcnt m (w_delivered s2).
+Proof. exact window_order_independent. Qed.
+
+(* the invariant behind them, kept by every iteration of the loop and every operation *)
+Theorem C08_window_invariant :
+  forall W ops s, wrun W winit ops = Some s -> WInv W s.
+Proof. intros W ops s H. exact (wrun_inv W ops winit s (inv_init W) H). Qed.
+
+(* why the discipline is needed: two variants that look harmless lose or strand the far-ahead message *)
+Theorem C08_window_giveup_refuted :
+  let s0 := mkWS far_ahead [] (supd sinit 0 (0, [])) [] far_ahead in
+  match drain_with (cstep_giveup 2) 100 s0 with
+  | Some s => w_fifo s = [] /\ opens 2 (w_rat s) (mkW 0 4) = true /\ ~ In (mkW 0 4) (w_delivered s) /\ w_parked s = []
+  | None => False
+  end.
+Proof. exact giveup_loses. Qed.
+
+Theorem C08_window_lazyflush_refuted :
+  let arr := [mkW 0 4; mkW 0 1; mkW 0 2; mkW 1 9] in
+  let s0 := mkWS arr [] (supd sinit 0 (0, [])) [] arr in
+  match drain_with (cstep_lazyflush 2) 100 s0 with
+  | Some s => w_fifo s = [] /\ opens 2 (w_rat s) (mkW 0 4) = true /\ In (mkW 0 4) (w_parked s)
+  | None => False
+  end.
+Proof. exact lazyflush_strands. Qed.
+
+(* non-vacuity: the far-ahead history under the real discipline, window 2 *)
+Example C08_window_nonvacuous :
+  match wfinal 2 (WRegister 0 0 :: map WArrive far_ahead) with
+  | Some s => map w_ctr (w_delivered s) = [1; 2; 3; 4] /\ w_parked s = []
+  | None => False
+  end.
+Proof. exact far_ahead_delivered. Qed.
+End Win.
+Export Win.
+
 Print Assumptions C08_terminates.
 Print Assumptions C08_eventually_delivered.
 Print Assumptions C08_source_skeleton.
@@ -108,3 +213,13 @@ Print Assumptions C08_quiescent_shape.
 Print Assumptions C08_mutual_exclusion.
 Print Assumptions C08_pinned_park_outside_lock_refuted.
 Print Assumptions C08_pinned_head_only_refuted.
+Print Assumptions C08_window_loop_terminates.
+Print Assumptions C08_window_history_total.
+Print Assumptions C08_window_none_stranded.
+Print Assumptions C08_window_sound.
+Print Assumptions C08_window_prefix_complete.
+Print Assumptions C08_window_prefix_complete_current.
+Print Assumptions C08_window_order_independent.
+Print Assumptions C08_window_invariant.
+Print Assumptions C08_window_giveup_refuted.
+Print Assumptions C08_window_lazyflush_refuted.
